@@ -1,5 +1,5 @@
 import ThermoVerif.Model.Network
-import ThermoVerif.Lemmas.NetworkExec
+import ThermoVerif.Lemmas.NetworkBridge
 /-
 C18 — Flowsheet connections stay mutually consistent under every rewiring operation.
 
@@ -19,6 +19,15 @@ slice or item assignment of another unit's ports) is listed exactly where its
 sink/source pointer says.  Preconditions are monitored by the model itself
 (`World.pre`, sticky) and apply to streams and placeholders alike: a history
 counts only while every primitive list operation was used as the property allows.
+(The harness evaluates the same preconditions independently in Python on the real
+objects and compares the two flags on every line.)
+
+Scope notes.  A history ends at the first operation that raises (`World.run`); the
+state a rejected call leaves behind is not part of any statement here.  "Placeholders
+report no material" has no theorem: in the model a placeholder has no flow data at
+all; the clause is decided on the real objects by the oracle.  The bridge between the
+clauses below and the count formulation of the lemma files is
+`Lemmas/NetworkBridge.lean` (`goodS_iff`, `goodS_init`).
 -/
 namespace ThermoVerif.Props.C18
 open ThermoVerif.Network
@@ -53,69 +62,22 @@ structure Scoped (w : World) : Prop where
 used within its preconditions, the invariant holds. -/
 def Good (w : World) : Prop := w.pre = true → Inv w ∧ Scoped w
 
-/-! ### Bridge to the per-side count formulation used in the lemma files -/
+/-! ### Bridge to the count formulation of the lemma files
 
-theorem sinv_of_sideInv {w : World} (k : Which) (hi : SideInv (w.side k)) (hs : Scoped w) :
-    SInv w.nU All (w.get k) := by
-  refine ⟨fun u s _ => ?_, fun u hf => ?_, ?_⟩
-  · have h1 := hi.listed_iff_docked u s
-    have h2 := hi.no_two_ports u s
-    simp only [get_sd]
-    by_cases hl : (w.side k).loc s = some u
-    · have := List.count_pos_iff.mpr (h1.mpr hl)
-      rw [if_pos hl]; omega
-    · rw [if_neg hl]
-      exact List.count_eq_zero.mpr (fun hm => hl (h1.mp hm))
-  · simp only [get_sd] at hf ⊢
-    exact hi.fixed_size u hf
-  · constructor
-    · intro u s h; simpa using hs.lst_lt k u s (by simpa using h)
-    · intro s h; simpa using hs.loc_none k s (by simpa using h)
-    · intro u h; simpa using hs.lst_nil k u h
-    · intro u h; simpa using hs.fixed_false k u h
-    · intro s u h; exact hs.loc_lt k s u (by simpa using h)
+`GoodS` (Lemmas/NetworkBridge.lean, `goodS_iff`) is exactly the conjunction of the clauses of
+`SideInv` for both sides and of `Scoped`; the two conversions below only repackage fields. -/
 
-theorem sideInv_of_sinv {w : World} (k : Which) (h : SInv w.nU All (w.get k)) :
-    SideInv (w.side k) := by
-  refine ⟨fun u s => ?_, fun u s => ?_, fun u hf => ?_⟩
-  · have := h.cnt u s trivial
-    simp only [get_sd] at this
-    rw [← List.count_pos_iff, this]
-    split <;> simp [*]
-  · have := h.cnt u s trivial
-    simp only [get_sd] at this
-    rw [this]; split <;> omega
-  · have := h.fx u (by simpa using hf)
-    simpa using this
+private def toGoodS {w : World} (h : Inv w ∧ Scoped w) : GoodS w :=
+  (goodS_iff w).mpr ⟨⟨h.1.ins.1, h.1.ins.2, h.1.ins.3⟩, ⟨h.1.outs.1, h.1.outs.2, h.1.outs.3⟩,
+    ⟨h.2.1, h.2.2, h.2.3, h.2.4, h.2.5, h.2.6⟩⟩
 
-theorem goodS_of {w : World} (h : Inv w ∧ Scoped w) : GoodS w :=
-  ⟨sinv_of_sideInv .i h.1.ins h.2, sinv_of_sideInv .o h.1.outs h.2, h.2.not_real⟩
+private def ofGoodS {w : World} (h : GoodS w) : Inv w ∧ Scoped w :=
+  have c := (goodS_iff w).mp h
+  ⟨⟨⟨c.1.1, c.1.2.1, c.1.2.2⟩, ⟨c.2.1.1, c.2.1.2.1, c.2.1.2.2⟩⟩,
+   ⟨c.2.2.1, c.2.2.2.1, c.2.2.2.2.1, c.2.2.2.2.2.1, c.2.2.2.2.2.2.1, c.2.2.2.2.2.2.2⟩⟩
 
-theorem of_goodS {w : World} (h : GoodS w) : Inv w ∧ Scoped w := by
-  refine ⟨⟨sideInv_of_sinv .i h.ins, sideInv_of_sinv .o h.outs⟩, ?_⟩
-  have side : ∀ k, SInv w.nU All (w.get k) := h.side
-  constructor
-  · intro k u s hm; simpa using (side k).sc.lst_lt u s (by simpa using hm)
-  · intro k s hs; simpa using (side k).sc.loc_none s (by simpa using hs)
-  · exact h.nreal
-  · intro k u hu; simpa using (side k).sc.lst_nil u hu
-  · intro k u hu; simpa using (side k).sc.fixed_false u hu
-  · intro k s u hl; exact (side k).sc.loc_lt s u (by simpa using hl)
-
-theorem good_init : Good World.init := by
-  intro _
-  refine ⟨⟨?_, ?_⟩, ?_⟩
-  · exact ⟨by simp [World.init, Side.init], by simp [World.init, Side.init],
-      by simp [World.init, Side.init]⟩
-  · exact ⟨by simp [World.init, Side.init], by simp [World.init, Side.init],
-      by simp [World.init, Side.init]⟩
-  · constructor
-    · intro k u s; cases k <;> simp [World.init, Side.init, World.side]
-    · intro k s; cases k <;> simp [World.init, Side.init, World.side]
-    · intro s; simp [World.init]
-    · intro k u; cases k <;> simp [World.init, Side.init, World.side]
-    · intro k u; cases k <;> simp [World.init, Side.init, World.side]
-    · intro k s u; cases k <;> simp [World.init, Side.init, World.side]
+/-- The empty flowsheet satisfies the invariant (base case of `inv_history`). -/
+theorem good_init : Good World.init := fun _ => ofGoodS goodS_init
 
 /-- The precondition monitor is sticky: it never turns back on. -/
 theorem pre_sticky (w w' : World) (op : Op) (h : w.step op = .ok w') (hp : w'.pre = true) :
@@ -124,7 +86,7 @@ theorem pre_sticky (w w' : World) (op : Op) (h : w.step op = .ok w') (hp : w'.pr
   simp only [Bool.and_eq_true] at this
   exact this.1.1
 
-/-- One operation preserves the invariant (all 22 operation kinds), for streams and
+/-- One operation preserves the invariant (all 27 operation kinds), for streams and
 placeholder objects alike. -/
 theorem inv_step (w w' : World) (op : Op) (hg : Good w) (h : w.step op = .ok w') : Good w' := by
   intro hp
@@ -132,8 +94,8 @@ theorem inv_step (w w' : World) (op : Op) (hg : Good w) (h : w.step op = .ok w')
   have hp0 := S.ext.pre hp
   simp only [Bool.and_eq_true] at hp0
   obtain ⟨⟨hpw, hids⟩, hunits⟩ := hp0
-  have hG := goodS_of (hg hpw)
-  exact of_goodS (S.inv hp ⟨hG.ins.of_eq rfl rfl, hG.outs.of_eq rfl rfl, hG.nreal⟩ ⟨hids, hunits⟩)
+  have hG := toGoodS (hg hpw)
+  exact ofGoodS (S.inv hp ⟨hG.ins.of_eq rfl rfl, hG.outs.of_eq rfl rfl, hG.nreal⟩ ⟨hids, hunits⟩)
 
 /-- Every history, of any length. -/
 theorem inv_history (ops : List Op) (w : World) (hg : Good w) : Good (w.run ops) := by
@@ -208,7 +170,7 @@ theorem vacated_port_filled_by_placeholder (w w' : World) (k : Which) (u s : Nat
     ∃ i, ((w.side k).lst u).idxOf? s = some i ∧
       (w'.side k).lst u = ((w.side k).lst u).set i w.nS ∧
       w'.real w.nS = false ∧ (w'.side k).loc w.nS = some u ∧ (w'.side k).loc s = none := by
-  have hG := goodS_of (hg hp)
+  have hG := toGoodS (hg hp)
   simp only [World.step, World.exec, World.on] at h
   obtain ⟨r, hr, h⟩ := bind_ok.mp h
   cases h
@@ -226,6 +188,37 @@ theorem vacated_port_filled_by_placeholder (w w' : World) (k : Which) (u s : Nat
   · rw [put_real]; exact hG.nreal w.nS (Nat.le_refl _)
   · rw [put_side_same]; exact h4
   · rw [put_side_same]; exact h5
+
+/-- No rewiring operation invents a stream: except for `AbstractStream()` and the unit
+constructor (`op.creates`), every object an operation allocates is a placeholder.  Holds
+inside and outside the preconditions. -/
+theorem new_objects_are_placeholders (w w' : World) (op : Op) (hop : op.creates = false)
+    (h : w.step op = .ok w') (hn : ∀ s, w.nS ≤ s → w.real s = false) (x : Nat) (hx : w.nS ≤ x) :
+    w'.real x = false := by
+  have := (exec_wstepR h hop).real
+  rw [this]; exact hn x hx
+
+/-- "Port lists of fixed size keep their size with vacated ports filled by placeholders", for
+every operation other than the two that create streams — item and slice assignment (also when
+they move a stream away to another unit), `pop`, `remove`, `replace`, `clear`, `empty`,
+`disconnect_*`, `unit.disconnect`, `take_place_of`, `replace_with`, `insert`, `reconnect`, pipe
+notation, ports: within the preconditions, afterwards every fixed-size list has its size, and
+every port of every list holds either an object that existed before the operation (of unchanged
+kind) or a placeholder.  So whatever sits in a port that a stream vacated is a placeholder. -/
+theorem vacated_ports_filled_by_placeholders (w w' : World) (op : Op) (hop : op.creates = false)
+    (hg : Good w) (h : w.step op = .ok w') (hp : w'.pre = true) :
+    (∀ k u, (w'.side k).fixed u = true → ((w'.side k).lst u).length = (w'.side k).size u) ∧
+    (∀ k u x, x ∈ (w'.side k).lst u →
+      (x < w.nS ∧ w'.real x = w.real x) ∨ (w.nS ≤ x ∧ w'.real x = false)) := by
+  have hI := (inv_step w w' op hg h hp).1
+  have hS := (hg (pre_sticky w w' op h hp)).2
+  refine ⟨fun k u hf => ?_, fun k u x _ => ?_⟩
+  · cases k
+    · exact hI.ins.fixed_size u hf
+    · exact hI.outs.fixed_size u hf
+  · by_cases hx : x < w.nS
+    · exact Or.inl ⟨hx, kind_stable w w' op h x hx⟩
+    · exact Or.inr ⟨by omega, new_objects_are_placeholders w w' op hop h hS.not_real x (by omega)⟩
 
 /-- Non-vacuity: a concrete history exercising redocking across units, pop, slice
 assignment and piping stays within the preconditions (so the theorem above applies to it). -/
